@@ -3,27 +3,35 @@
 # 1. confirms the seeded change in the scratch worktree (demo fails with the
 #    patch, passes without), 2. copies it to /verif/seeded/<seed-id>/,
 # 3. applies it to /repo, runs the given checks, 4. restores /repo.
+# PHASE=confirm does 1-2 only (can run for several worktrees in parallel),
+# PHASE=check does 3-4 only; default both.  Logs: /tmp/seed_<id>_*.log
 set -u
 ID=$1; WT=$2; N=$3; BIN=$4; shift 4
 S=$WT/SEED/$N
 OUT=/verif/seeded/$ID
 mkdir -p $OUT
+PHASE=${PHASE:-both}
+L=/tmp/seed_${ID}
+if [ "$PHASE" != check ]; then
 cp $S/patch.diff $S/demo.diff $OUT/
 cp $S/README.md $OUT/README.md
 cd $WT
 git checkout -q -- . 2>/dev/null
 git apply $S/demo.diff || { echo "demo does not apply"; exit 2; }
 git apply $S/patch.diff || { echo "patch does not apply"; exit 2; }
-cargo nextest run ${NEXTEST_ARGS:---workspace} --offline -E "${FILTER:-binary($BIN)}" > /tmp/seed_with.log 2>&1; W=$?
+cargo nextest run ${NEXTEST_ARGS:---workspace} --offline -E "${FILTER:-binary($BIN)}" > ${L}_with.log 2>&1; W=$?
 git apply -R $S/demo.diff
-cargo nextest run --workspace --no-fail-fast --offline --test-threads 8 > /tmp/seed_suite.log 2>&1
-SUITE=$(grep -E "^\s+Summary" /tmp/seed_suite.log | tail -1); FAILED=$(grep -E "^\s+(FAIL|TIMEOUT|SIGABRT)" /tmp/seed_suite.log | awk '{print $NF}' | sort -u | tr '\n' ' ')
+cargo nextest run --workspace --no-fail-fast --offline --test-threads 8 > ${L}_suite.log 2>&1
+SUITE=$(grep -E "^\s+Summary" ${L}_suite.log | tail -1); FAILED=$(grep -E "^\s+(FAIL|TIMEOUT|SIGABRT)" ${L}_suite.log | awk '{print $NF}' | sort -u | tr '\n' ' ')
 echo "suite with patch (no demo): $SUITE failed: $FAILED" | tee $OUT/suite_with_patch.txt
 git apply $S/demo.diff
 git apply -R $S/patch.diff
-cargo nextest run ${NEXTEST_ARGS:---workspace} --offline -E "${FILTER:-binary($BIN)}" > /tmp/seed_without.log 2>&1; WO=$?
+cargo nextest run ${NEXTEST_ARGS:---workspace} --offline -E "${FILTER:-binary($BIN)}" > ${L}_without.log 2>&1; WO=$?
 git checkout -q -- . ; git clean -fdq crates >/dev/null 2>&1
-echo "demo with patch: exit $W ; without patch: exit $WO"
+echo "demo with patch: exit $W ; without patch: exit $WO" | tee $OUT/demo_result.txt
+fi
+[ "$PHASE" = confirm ] && exit 0
+W=${W:-?}; WO=${WO:-?}
 cd /repo
 git apply $S/patch.diff || { echo "patch does not apply to /repo"; exit 2; }
 RES=""
